@@ -65,6 +65,9 @@ fn census_case(item: u64, rng: &mut Rng, acc: &mut Acc, range: &(String, u32, u3
         let census = tracked_census();
         acc.evals += 1;
         acc.count(&format!("census_outcome_{}", run.outcome.kind().chars().take(24).collect::<String>()));
+        if let Outcome::Panic(p) = &run.outcome {
+            acc.violate(item, "panic_with_user_scalar", "precision:panic", json!({"config": su.describe(), "x": fjv(&x), "panic": p}));
+        }
         let mut key = vec![gkey, 1];
         key.extend(x.iter().map(|v| v.to_bits()));
         acc.distinct.insert(hash_u64s(&key));
